@@ -72,7 +72,7 @@ def run(ctx) -> None:
 
     # (2) tmp_path uniqueness and directory
     og = own.origins(f, ast.Name(id="tmp_path", ctx=ast.Load()), defs)
-    uniq = any(o in ("call:uuid.uuid4", "call:uuid.uuid1", "call:os.getpid", "call:tempfile.mkstemp", "call:secrets.token_hex") for o in og)
+    uniq = any(o in ("call:uuid.uuid4", "call:uuid.uuid1", "call:tempfile.mkstemp", "call:secrets.token_hex") for o in og)
     same_dir = any(o in ("call:cache_path.with_suffix", "call:cache_path.with_name", "<cache_path>.parent", "call:cache_path.parent.joinpath") for o in og)
     if uniq and same_dir:
         ctx.ok("PROTO", f, f.node, what="tmp_path <- cache_path sibling + uuid")
